@@ -19,12 +19,12 @@ const modulePath = "github.com/emicklei/go-restful/v3"
 // Program is the type-checked, SSA-converted build of the repository under analysis.
 type Program struct {
 	fieldStoreCache map[*types.Var][]*ssa.Store
-	Repo    string
-	Fset    *token.FileSet
-	Pkgs    []*packages.Package
-	Prog    *ssa.Program
-	Restful *ssa.Package
-	Log     *ssa.Package
+	Repo            string
+	Fset            *token.FileSet
+	Pkgs            []*packages.Package
+	Prog            *ssa.Program
+	Restful         *ssa.Package
+	Log             *ssa.Package
 	// Funcs are all functions (source functions, closures and synthetic wrappers)
 	// that belong to the module, sorted by position then name.
 	Funcs   []*ssa.Function
